@@ -304,7 +304,7 @@ def qtt_case(draw):
     rows = [int(np.prod(f)) for f in rf]
     cols = [int(np.prod(f)) for f in cf]
     a = draw(gen.tt_spec(rows=rows, cols=cols, kind='given', max_rank=3))
-    return {'a': a, 'row_factors': rf, 'col_factors': cf}
+    return {'a': a, 'row_factors': rf, 'col_factors': cf, 'threshold': draw(st.sampled_from([0, 0, 1e-14]))}
 
 
 def body_qtt(case):
@@ -313,7 +313,9 @@ def body_qtt(case):
     rf, cf = case['row_factors'], case['col_factors']
     x = dense.contract(a.cores)
     scale = dense.scale_of(a.cores)
-    q = a.tt2qtt([list(f) for f in rf], [list(f) for f in cf])
+    # a negligible relative threshold only removes numerically zero directions of the split (generic cores: none)
+    q = a.tt2qtt([list(f) for f in rf], [list(f) for f in cf], threshold=case.get('threshold', 0)) if case.get('threshold', 0) else \
+        a.tt2qtt([list(f) for f in rf], [list(f) for f in cf])
     require_consistent(q, 'tt2qtt_consistent')
     flat_r = [f for fs in rf for f in fs]
     flat_c = [f for fs in cf for f in fs]
@@ -334,6 +336,8 @@ def body_qtt(case):
         lab.add('three_factors')
     if any(a_ != b_ for a_, b_ in zip(flat_r, flat_c)):
         lab.add('rect_factors')
+    if case.get('threshold', 0):
+        lab.add('negligible_threshold')
     return lab
 
 
